@@ -10,7 +10,10 @@ MANIFEST = dict(
     technique="Lean 4 proof over a hand-written state-machine model (constants regenerated from source) + correspondence run with real child processes and /proc observation",
     design="5/C16",
 )
-GEN = ["Timing/grace", "Shutdown"]
+GEN = ["Timing/grace"]
+# not stated by the property text (DESIGN 9.9): the bound of the stdout drain, which only matters with a grandchild
+SUPP_GEN = ["Shutdown"]
+SUPP_THEOREMS = ["c16_drain_translated", "c16_leave_sound_held"]
 THEOREMS = [
     "c16_translated",
     "c16_grace_periods",
@@ -30,7 +33,6 @@ THEOREMS = [
     "c16_entry_gap_orphans",
     "c16_returned_value_was_written_by_child", "c16_dead_child_never_answers",
     "c16_eof_is_not_exit", "c16_reuse_sound", "c16_exit_once_leaks_on_reuse", "c16_failed_handshake_cleans_up",
-    "c16_drain_translated", "c16_leave_sound_held",
     "c16_concurrent_no_fabricated_result", "c16_concurrent_clients_independent",
 ]
 RULE = (
@@ -137,6 +139,40 @@ def hardening_product():
         for p in H.PATHS:
             for m in ("before", "after"):
                 out.append(_case(b, p, m, api="with_initialize", **v))
+    return out
+
+
+def host_runner_enabled():
+    """The scenarios that leave the contexts the way the library's own multi-server host does
+    (`server_manager.run_command`).  They failed on the pinned tree (findings/C16-run-command-*.json)
+    and hold since the repair 2fe68b4 in /repo; they are always generated."""
+    return True
+
+
+def host_runner_product():
+    out = []
+    groups = [[{"behaviour": "well"}], [{"behaviour": "ignore_term"}], [{"behaviour": "well", "on_term": 0}],
+              [{"behaviour": "well", "term_delay": 0.5}, {"behaviour": "well"}],
+              [{"behaviour": "well"}, {"behaviour": "ignore_term"}, {"behaviour": "slow_start"}]]
+    for g in groups:
+        for p in ("normal", "exception"):
+            out.append({"behaviour": "well", "path": p, "moment": "after", "api": "run_command", "nreq": 1, "servers": g})
+    return out
+
+
+def body_exception_product():
+    """every class of exception the BODY may leave the context with — unprintable ones, groups, the builtins the
+    wrappers filter on — at every moment, through every API, with and without a host logger that formats at DEBUG"""
+    out = []
+    for i, k in enumerate(H.EXC_CLASSES):
+        for m in H.MOMENTS:
+            for api in (H.APIS + ["with_initialize"]):
+                c = _case("well", "exception", m, exc_class=k, api=api)
+                if (i + len(out)) % 2:
+                    c["logging"] = "debug"
+                out.append(c)
+        out.append(_case("ignore_term", "exception", "after", exc_class=k, logging="debug"))
+        out.append(_case("flood", "exception", "before", exc_class=k))
     return out
 
 
@@ -274,6 +310,16 @@ DIRECTED = [
     _case("flood", "cancel", "before", self_exit=3),
     _case("well", "cancel", "after", on_term=0),
     _case("exit_at", "normal", "after", k=2, code=0),
+    # what the body raises: unprintable, groups, the classes the wrappers filter; a host logger that formats at DEBUG
+    _case("well", "exception", "after", exc_class="unprintable"),
+    _case("well", "exception", "before", exc_class="unreprable", logging="debug"),
+    _case("well", "exception", "inflight", exc_class="ExceptionGroup-unprintable", api="StdioTransport"),
+    _case("ignore_term", "exception", "after", exc_class="BaseExceptionGroup", logging="debug"),
+    _case("well", "exception", "after", exc_class="ExceptionGroup-cancel-scope", api="StdioClient"),
+    _case("well", "exception", "after", exc_class="StopAsyncIteration", api="with_initialize", logging="debug"),
+    _case("well", "normal", "after", logging="debug"),
+    _case("flood", "cancel", "before", logging="debug"),
+    _case("exit_at", "timeout", "after", k=1, logging="debug"),
     # the stderr pipe
     _case("well", "normal", "before", stderr_flood="on_term", env="quiet"),
     _case("well", "cancel", "after", stderr_flood="always", env="quiet"),
@@ -291,6 +337,9 @@ DIRECTED = [
      "order": [2, 1, 0], "send_order": [0, 1, 2]},
 ]
 BAD = [{"bad": b, "api": a} for b in ("missing", "not-executable", "directory", "bare-name") for a in H.APIS]
+# the same object entered again after the failed start (a host that retries): it must fail again, not "succeed" empty
+BAD += [{"bad": b, "api": a, "attempts": n, **({"logging": "debug"} if n == 3 else {})}
+        for b in ("missing", "not-executable") for a in ("StdioTransport", "StdioClient", "stdio_client") for n in (2, 3)]
 
 
 def entry_scan(step, upto=200, apis=("stdio_client",)):
@@ -324,18 +373,21 @@ class Scenarios(Suite):
     def cases(self, ctx, budget):
         rng = ctx.sub_rng("c16", budget)
         if budget == "quick":
-            full = product(H.APIS) + backlog_product() + reuse_product() + hardening_product() + status_product() + stderr_product() + concurrent_product()
+            full = product(H.APIS) + backlog_product() + reuse_product() + hardening_product() + body_exception_product() + status_product() + stderr_product() + concurrent_product()
             out = [dict(c) for c in DIRECTED] + [dict(c) for c in rng.sample(full, 6)]
             out += entry_scan(8, 160)
-            out += [BAD[0], BAD[4], BAD[8]]
+            out += [BAD[0], BAD[4], BAD[8]] + [b for b in BAD if b.get("attempts") == 2 and b["bad"] == "missing"] \
+                + [b for b in BAD if b.get("attempts") == 3 and b["bad"] == "not-executable" and b["api"] != "stdio_client"]
         elif budget == "thorough":
             out = (product(H.APIS) + backlog_product(H.APIS) + reuse_product() + reuse_product(("StdioClient",), (3,))
-                   + hardening_product() + status_product() + stderr_product() + concurrent_product()
+                   + hardening_product() + body_exception_product() + status_product() + stderr_product() + concurrent_product()
                    + entry_scan(2, 200) + entry_scan(8, 160, H.APIS[1:]) + BAD)
         else:  # search
             out = (product(["stdio_client"], nreq=1, junk=False) + backlog_product() + reuse_product(("StdioClient", "StdioTransport"))
-                   + hardening_product() + status_product() + stderr_product() + concurrent_product()
+                   + hardening_product() + body_exception_product() + status_product() + stderr_product() + concurrent_product()
                    + entry_scan(4, 160) + BAD[:4])
+        if host_runner_enabled():
+            out += host_runner_product()[: (4 if budget == "quick" else None)]
         for i, c in enumerate(out):
             if "bad" not in c:
                 c["nonce"] = f"{budget[0]}{i}"
@@ -355,6 +407,10 @@ class Scenarios(Suite):
                 d[key] = case[key]
         if case.get("concurrent"):
             return {"m": "shutdown", "path": case["path"], "concurrent": case["concurrent"]}
+        if case.get("servers"):
+            return {"m": "shutdown", "path": "normal", "concurrent": [
+                {"behaviour": "slow_term", "term_delay_ms": int(sp["term_delay"] * 1000)} if "term_delay" in sp
+                else {"behaviour": sp["behaviour"]} for sp in case["servers"]]}
         if "self_exit" in case:
             # it answers what it was asked (if it is a child that answers) and is gone when the exit begins
             answered = case.get("nreq", 1) if (case["moment"] == "after" and H.answers(case, 1)) else 0
@@ -377,10 +433,13 @@ class Scenarios(Suite):
             return "harness error: " + o["harness_error"]
         if "bad" in case:
             return None if (not o["entered"]) == m["raised_on_enter"] else "entering differs"
+        if case.get("servers") and self.oracle(case, o) is not None:
+            return None      # the property oracle already reports this case (possibly as a known finding)
         mine = {
             "raised_on_enter": (not o["entered"]) and case["moment"] != "entry",
             "child": "reaped" if o["state"] == "gone" else o["state"],
-            "bounded": (not o["hang"]) and o["duration_ms"] is not None and o["duration_ms"] <= BOUND_MS,
+            "bounded": (not o["hang"]) and o["duration_ms"] is not None
+            and o["duration_ms"] <= H.GRACE_MS * max(1, len(case.get("servers") or [1])) + H.SLACK_MS,
             "requests": ["returned" if r["outcome"] == "returned" else "timeout"
                          for r in o["requests"] if not r.get("held")],
         }
@@ -392,8 +451,32 @@ class Scenarios(Suite):
             return None
         if "bad" in case:
             if o["entered"]:
-                return (f"bad-command-entered/{case['bad']}", f"entering the context with an unstartable command "
-                        f"({case['bad']}, {case.get('api')}) did not raise", {"raised_on_enter": True})
+                which = ""
+                if case.get("attempts", 1) > 1:
+                    which = f" on attempt {1 + next((i for i, a in enumerate(o.get('attempts', [])) if a != 'raised'), 0)} of " \
+                            f"{case['attempts']} with the same object ({o.get('attempts')})"
+                return (f"bad-command-entered/{case['bad']}{'/retry' if which and o.get('attempts', ['x'])[0] == 'raised' else ''}",
+                        f"entering the context with an unstartable command ({case['bad']}, {case.get('api')}) did not raise{which}",
+                        {"raised_on_enter": True})
+            return None
+        if case.get("servers"):
+            n = len(case["servers"])
+            names = "+".join(sp["behaviour"] for sp in case["servers"])
+            what = f"server_manager.run_command with {n} server(s) [{names}], command function {'raises' if case['path'] == 'exception' else 'returns'}"
+            bound = H.GRACE_MS * n + H.SLACK_MS
+            if o["duration_ms"] is not None and o["duration_ms"] > bound:
+                return ("unbounded/run_command", f"{what}: leaving the {n} context(s) took {o['duration_ms']} ms", {"duration_ms": f"<= {bound}"})
+            if o["state"] == "running":
+                return ("child-left-running/run_command", f"{what}: a server process is still running after run_command returned "
+                        f"({o['fd_delta']} descriptors still open)", {"state": "gone", "fd_delta": 0})
+            if o["state"] == "zombie":
+                return ("child-unreaped/run_command", f"{what}: a server process is an unreaped zombie after run_command returned "
+                        f"({o['fd_delta']} descriptors still open)", {"state": "gone", "fd_delta": 0})
+            if o["fd_delta"] is not None and o["fd_delta"] > 0:
+                return ("fd-leak/run_command", f"{what}: {o['fd_delta']} additional descriptor(s) open after run_command returned", {"fd_delta": 0})
+            for r in o["requests"]:
+                if r["outcome"] == "returned" and r.get("payload") != {"echo": r["x"]}:
+                    return ("fabricated-result/run_command", f"{what}: server {r['client']} returned {r.get('payload')!r}", None)
             return None
         if case.get("concurrent"):
             names = "+".join(sp["behaviour"] + ("%d" % sp["k"] if "k" in sp else "") for sp in case["concurrent"])
@@ -472,11 +555,15 @@ class Scenarios(Suite):
 
     def kind(self, case, o):
         if "bad" in case:
-            return f"bad-command/{case['bad']}"
+            return f"bad-command/{case['bad']}/{case.get('api')}{'x%d' % case['attempts'] if case.get('attempts', 1) > 1 else ''}"
         b = case["behaviour"] + ("%d" % case["k"] if "k" in case else "")
+        if case.get("servers"):
+            return f"run_command:{'+'.join(sp['behaviour'] for sp in case['servers'])}/{case['path']}"
         if case.get("concurrent"):
             b = "concurrent:" + "+".join(sp["behaviour"] + ("%d" % sp["k"] if "k" in sp else "") for sp in case["concurrent"]) \
                 + "/" + case.get("req_api", "legacy")
+        if case.get("exc_class"):
+            b += "+raises-" + case["exc_class"]
         if "on_term" in case:
             b += "+exit%d-on-term" % case["on_term"]
         if "self_exit" in case:
@@ -487,7 +574,7 @@ class Scenarios(Suite):
             return f"{b}/{case['path']}/entry-{'cut' if not o['entered'] else 'body'}/{case.get('api')}"
         if case["behaviour"] == "close_stdout":
             b += "-" + case.get("linger", "eof") + ("@%d" % case["close_after"] if case.get("close_after") else "")
-        flags = "".join("+" + k for k in ("stderr_flood", "chatty", "falsy_result", "term_delay", "env", "stderr", "hostile_args", "nested", "legacy",
+        flags = "".join("+" + k for k in ("logging", "stderr_flood", "chatty", "falsy_result", "term_delay", "env", "stderr", "hostile_args", "nested", "legacy",
                                           "exc_text", "req_id", "empty_x", "backlog_bytes") if case.get(k) is not None)
         if case.get("backlog", 0) > 95:
             flags += "+queue-full"
@@ -500,7 +587,11 @@ class Scenarios(Suite):
 
     def shrink_candidates(self, case):
         if "bad" in case:
-            if case.get("api") != "stdio_client":
+            if "logging" in case:
+                yield {a: b for a, b in case.items() if a != "logging"}
+            if case.get("attempts", 1) > 2:
+                yield dict(case, attempts=2)
+            if case.get("api") != "stdio_client" and case.get("attempts", 1) == 1:
                 yield dict(case, api="stdio_client")
             return
         if case.get("api") != "stdio_client":
@@ -508,6 +599,11 @@ class Scenarios(Suite):
         if case["moment"] == "entry":
             if case["behaviour"] != "well":
                 yield dict(case, behaviour="well")
+            return
+        if case.get("servers"):
+            if len(case["servers"]) > 1:
+                for i in range(len(case["servers"])):
+                    yield dict(case, servers=case["servers"][:i] + case["servers"][i + 1:])
             return
         if case.get("concurrent"):
             if len(case["concurrent"]) > 2:
@@ -518,7 +614,7 @@ class Scenarios(Suite):
                                order=[ren[i] for i in case.get("order", []) if i in ren],
                                send_order=[ren[i] for i in case.get("send_order", []) if i in ren])
             return
-        for k in ("on_term", "self_exit", "code", "stderr_flood"):
+        for k in ("logging", "exc_class", "on_term", "self_exit", "code", "stderr_flood"):
             if k in case:
                 yield {a: b for a, b in case.items() if a != k}
         for k in ("chatty", "falsy_result", "env", "stderr", "hostile_args", "legacy", "exc_text", "req_id", "empty_x", "backlog_bytes"):
@@ -566,9 +662,7 @@ class ExitTrace(Suite):
     comparison of the signal trace is SUPPLEMENTARY (a client that, say, closed stdin first and waited would satisfy
     the property with another trace): differences go to the evidence notes."""
     name = "exit-trace"
-
-    def __init__(self):
-        self.mismatches = []
+    supplementary = True       # the ORACLE below is the property text; the trace comparison is not a verdict
 
     def cases(self, ctx, budget):
         import itertools
@@ -599,11 +693,7 @@ class ExitTrace(Suite):
             return None
         mine = {"child": o["child"], "duration": o["duration"], "signals": o["signals"]}
         theirs = {"child": m.get("child"), "duration": m.get("duration"), "signals": m.get("signals")}
-        if mine != theirs and len(self.mismatches) < 5:
-            self.mismatches.append({"case": case, "impl": mine, "model": theirs})
-        if mine != theirs:
-            self.nmis = getattr(self, "nmis", 0) + 1
-        return None
+        return None if mine == theirs else f"exit trace {mine}, model {theirs}"
 
     def oracle(self, case, o):
         sp = case["spec"]
@@ -634,19 +724,5 @@ class ExitTrace(Suite):
             yield dict(case, tie="events")
 
 
-_SUPP: list = []
-
-
-def extra(ctx, tier):
-    for s in _SUPP:
-        n = getattr(s, "nmis", 0)
-        if n and tier != "search":
-            print(f"# C16 supplementary correspondence '{s.name}' differs from the model on {n} input(s) (informational): "
-                  + str(s.mismatches[0])[:300])
-        ctx.notes.append(f"supplementary correspondence '{s.name}' (signal trace, exact virtual durations): {n} difference(s)"
-                         + (": " + str(s.mismatches[0])[:600] if n else ""))
-
-
 def suites():
-    _SUPP[:] = [ExitTrace()]
-    return [Scenarios()] + _SUPP
+    return [Scenarios(), ExitTrace()]
